@@ -9,7 +9,7 @@ WordClass(w) ==
   IF w.k = "op" THEN "valid"
   ELSE LET ok == w.okind IN
     IF ok \in {"none", "any", "fprint"} THEN "valid"
-    ELSE IF ok \in {"unknown", "missing", "missing1"} THEN "invalid"
+    ELSE IF ok \in {"unknown", "unknown1", "missing", "missing1"} THEN "invalid"
     ELSE IF ok = "num" THEN NumClass(w.arg, FALSE)
     ELSE IF ok = "timenum" THEN NumClass(w.arg, TRUE)
     ELSE IF ok = "size" THEN (IF \E i \in DOMAIN w.arg : w.arg[i] = SPC THEN "unspec" ELSE SizeClass(w.arg))
